@@ -320,15 +320,13 @@ func (t *textGen) randLit(line bool) *literal.Literal {
 		}
 		return mustLit(literal.Int64, int64(r.next()))
 	case 2:
-		vs := []float64{0, math.Copysign(0, -1), math.Inf(1), math.Inf(-1), math.SmallestNonzeroFloat64, math.MaxFloat64, 1.5, -2.25, 1e21, 1e-7, 0.1, 5e-324 * 3}
+		// (NaNs included: Go's own, the one 0/0 gives, a signalling one — every NaN prints as "NaN")
+		vs := []float64{0, math.Copysign(0, -1), math.Inf(1), math.Inf(-1), math.SmallestNonzeroFloat64, math.MaxFloat64, 1.5, -2.25, 1e21, 1e-7, 0.1, 5e-324 * 3,
+			math.NaN(), math.Float64frombits(0xfff8000000000000), math.Float64frombits(0x7ff0000000000001)}
 		if r.chance(1, 2) {
 			return mustLit(literal.Float64, vs[r.intn(len(vs))])
 		}
-		f := math.Float64frombits(r.next())
-		if math.IsNaN(f) {
-			f = 1
-		}
-		return mustLit(literal.Float64, f)
+		return mustLit(literal.Float64, math.Float64frombits(r.next()))
 	case 3, 4:
 		alpha := append([]string{" ", "  ", "\t", `" `, `] /`, `] "`, `> "`}, idAlphabet...)
 		if !line {
